@@ -498,7 +498,7 @@ def run(ctx, rep):
         nb, nset, nh = run_config(ctx, rep, cfg)
         if cfg is None:
             rep.floor("C05.R1", "CTR back ends", nb, 7)
-            rep.floor("C05.R1", "setter functions", nset, 20)
+            rep.floor("C05.R1", "setter functions", nset, 12)
             rep.floor("C05.R6", "counter increment helpers", nh, 4)
             n5 = sum(1 for o in rep.obs if o["rule"] == "C05.R5")
             rep.floor("C05.R5", "encrypt-loop path obligations", n5, 49)
